@@ -39,7 +39,9 @@ def mc_cfg(mode, maxtoks, variant="faithful", full=False):
 STUB_C = r"""
 #include <stdio.h>
 #include <stdlib.h>
+#include <unistd.h>
 #include <string.h>
+#include <signal.h>
 /* pkg-config --print-errors FLAG LIBNAME : prints <dir>/<LIBNAME>.<FLAG>.out, exits with .status */
 int main(int argc, char **argv) {
     const char *d = getenv("PKGSTUB_DIR");
@@ -51,6 +53,7 @@ int main(int argc, char **argv) {
     if (!(f = fopen(path, "rb"))) { fprintf(stderr, "Package %s was not found in the stub\n", argv[3]); return 97; }
     while ((c = fgetc(f)) != EOF) putchar(c);
     fclose(f);
+    if (st < 0) { fflush(stdout); raise(-st); pause(); }      /* terminated by a signal after a partial output */
     if (st) { fputs("stub: simulated failure \xff\xfe\n", stderr); }
     return st;
 }
@@ -106,6 +109,9 @@ class Stub:
                 if failing and p.get("how", "status") == "status":
                     with open(os.path.join(self.data, "%s.%s.status" % (nm, flag)), "w") as f:
                         f.write(str(p.get("status", 1)))
+                if failing and p.get("how") == "signal":
+                    with open(os.path.join(self.data, "%s.%s.status" % (nm, flag)), "w") as f:
+                        f.write(str(-p.get("signal", 9)))
         try:
             res = pc.flags_from_pkgconfig(list(names))
             err = False
@@ -168,13 +174,15 @@ def rand_pkgs(rng):
         f = rng.random()
         fail = "none" if f < 0.85 else ("cflags" if f < 0.92 else "libs")
         pk.append({"cf": rand_output(rng, CFLAG_TOKENS, cross), "lb": rand_output(rng, LIB_TOKENS, cross), "fail": fail,
-                   "how": rng.choice(["status", "status", "undecodable"]), "status": rng.choice([1, 2, 127, 255]),
+                   "how": rng.choice(["status", "signal", "signal", "undecodable"]) if fail != "none" else "status",
+                   "status": rng.choice([1, 2, 127, 255]), "signal": rng.choice([9, 11, 15]),
                    "suffix": rng.choice(["", "", " >= 1.8.3", "-2.0"])})
     return pk
 
 
 def record(pkgs, err, res):
-    return {"pkgs": [{"cf": codes(p["cf"]), "lb": codes(p["lb"]), "fail": p["fail"]} for p in pkgs],
+    return {"pkgs": [{"cf": codes(p["cf"]), "lb": codes(p["lb"]), "fail": p["fail"],
+                      "how": p.get("how", "status") if p["fail"] != "none" else "status"} for p in pkgs],
             "err": err, "res": res_to_json(res)}
 
 
@@ -193,7 +201,8 @@ def validate(ctx, recs):
     return bad, div
 
 
-CLAUSE = {"error-expected": "a pkg-config call failed (exit status / undecodable output) but no PkgConfigError was raised",
+CLAUSE = {"error-expected": "a pkg-config call failed (non-zero exit status / killed by a signal / undecodable output / "
+                            "not runnable) but no PkgConfigError was raised",
           "spurious-error": "PkgConfigError although every pkg-config call succeeded",
           "lost-or-duplicated": "a token of the output was lost or appears more than once in the returned keywords",
           "wrong-keyword-or-order": "a token landed in the wrong keyword, was converted wrongly or the order changed"}
@@ -210,13 +219,14 @@ def run(ctx):
                                                       workers=4 if quick else 8, timeout=3000)),
             ("oracle dump", "dump", pool.submit(core.tlc, "MC_PkgConfig", cfg_text=mc_cfg("dump", 1 if quick else 2),
                                                 workers=1, env=light({"PKG_OUT": dump}), timeout=3000))]
-    for v, mode in (("rsplit", "stream"), ("dupD", "stream"), ("overwrite", "merge"), ("dropempty", "stream")):
+    for v, mode in (("rsplit", "stream"), ("dupD", "stream"), ("overwrite", "merge"), ("dropempty", "stream"),
+                    ("signalok", "merge")):
         futs.append(("sanity:" + v, "sanity", pool.submit(tlc_light, "MC_PkgConfig", cfg_text=mc_cfg(mode, 1, v))))
     stub = Stub(ctx)
     try:
         rng = ctx.rng
         # ---------------------------------------------------------------- code -> spec
-        cases = [rand_pkgs(rng) for _ in range(500 if quick else 6000)]
+        cases = [rand_pkgs(rng) for _ in range(300 if quick else 6000)]
         outs = list(pool.map(stub.run, cases))
         recs, metas = [], []
         for pk, (err, res, names) in zip(cases, outs):
@@ -235,7 +245,7 @@ def run(ctx):
                 err = True
         finally:
             os.environ["PATH"] = stub.dir + os.pathsep + stub.oldpath
-        pk = [{"cf": "", "lb": "", "fail": "cflags", "how": "missing-binary"}]
+        pk = [{"cf": "", "lb": "", "fail": "cflags", "how": "missing"}]
         recs.append(record(pk, err, {}))
         metas.append({"kind": "missing-binary", "pkgs": pk, "err": err, "res": {}})
         ctx.case(("missing",))
@@ -246,7 +256,8 @@ def run(ctx):
         with open(dump) as f:
             uni = json.load(f)
         s = lambda cs: "".join(chr(c) for c in cs)
-        ucases = [[{"cf": s(p["cf"]), "lb": s(p["lb"]), "fail": p["fail"], "how": "status"} for p in u["pkgs"]] for u in uni]
+        ucases = [[{"cf": s(p["cf"]), "lb": s(p["lb"]), "fail": p["fail"], "how": p["how"], "signal": 9 + 2 * (len(p["cf"]) % 2)}
+                   for p in u["pkgs"]] for u in uni]
         uouts = list(pool.map(stub.run, ucases))
         div = []
         for u, pk, (err, res, names) in zip(uni, ucases, uouts):
@@ -266,8 +277,9 @@ def run(ctx):
     bad, div2 = validate(ctx, recs)
     for k, v in bad:
         m = metas[k]
-        ctx.violation("pkgconfig:%s:%s" % (v, m["kind"]), CLAUSE.get(v, v) + ": outputs %r -> %s" % (
-            [(p["cf"], p["lb"], p["fail"]) for p in m["pkgs"]], "PkgConfigError" if m["err"] else m["res"]),
+        hows = sorted({p.get("how", "status") for p in m["pkgs"] if p["fail"] != "none"})
+        ctx.violation("pkgconfig:%s:%s%s" % (v, m["kind"], (":" + "+".join(hows)) if v == "error-expected" else ""), CLAUSE.get(v, v) + ": outputs %r -> %s" % (
+            [(p["cf"], p["lb"], p["fail"], p.get("how") if p["fail"] != "none" else "") for p in m["pkgs"]], "PkgConfigError" if m["err"] else m["res"]),
                       {"pkgs": [{k2: (v2.decode("latin-1") if isinstance(v2, bytes) else v2) for k2, v2 in p.items()}
                                 for p in m["pkgs"]]})
     ctx.validated(len(recs))
